@@ -26,7 +26,11 @@ func Scan(workDir string, pkgs []string, scanModels bool, input *spec.Swagger) (
 	log.SetOutput(io.Discard)
 	defer func() {
 		if r := recover(); r != nil {
-			panicked = fmt.Sprintf("%v\n%s", r, tail(string(debug.Stack()), 1800))
+			st := string(debug.Stack())
+			if len(st) > 2600 {
+				st = st[:2600]
+			}
+			panicked = fmt.Sprintf("%v\n%s", r, st)
 		}
 	}()
 	sw, e := codescan.Run(&codescan.Options{Packages: pkgs, WorkDir: workDir, ScanModels: scanModels, InputSpec: input})
